@@ -159,6 +159,8 @@ func (m *Machine) schedPoint(what string) {
 		if len(en) == 1 && en[0] != cur {
 			s.trace = append(s.trace, en[0].id)
 			m.switchTo(en[0])
+		} else {
+			s.trace = append(s.trace, cur.id)
 		}
 		return
 	}
@@ -167,11 +169,11 @@ func (m *Machine) schedPoint(what string) {
 		n = 1 // preemption budget used up: current task continues
 	}
 	k := m.Choose(n)
+	s.trace = append(s.trace, en[k].id)
 	if en[k] != cur {
 		if en[0] == cur {
 			s.preempt++
 		}
-		s.trace = append(s.trace, en[k].id)
 		m.switchTo(en[k])
 	}
 }
